@@ -21,7 +21,7 @@ RULE = ("Files of position-coded bytes (all >= 0x80) with sizes {0,1,c-1,c,c+1,2
         "in the three spec forms + random 3-6-spec sets + malformed/other-unit/empty headers; If-Range in {absent,current ETag,stale ETag,"
         "weak ETag,current Last-Modified,other date,garbage,empty}; GET/HEAD; WSGI / ASGI / ASGI+zerocopy; plus one response object serving 2-4 requests in a row. Non-trivial = a Range header is "
         "present; distinct = (interface,method,size,chunk,range,if-range kind).")
-RULE += ' Also: content_type= arguments with Latin-1 characters, a subclass that overrides generate_etag(), two overlapping requests on one ASGI response object. TAB after / before the comma between specs; one ASGI case in eight read by a slow client, with no send() pending when the call returns.'
+RULE += ' Also: content_type= arguments with Latin-1 characters, a subclass that overrides generate_etag(), two overlapping requests on one ASGI response object. TAB after / before the comma between specs; one ASGI case in eight read by a slow client, with no send() pending when the call returns. One case in nine served through a symbolic link to the file; If-Range dates showing the digits of Last-Modified under +0900 / EST / another weekday.'
 ASSUMPTIONS = [
     "Range headers are limited to the RFC 7233 grammar plus headers every reading rejects (no '=', other unit, no spec); leniently accepted garbage is C03's business",
     "400-vs-416 precedence not pinned when both apply",
@@ -125,6 +125,12 @@ def execute(ctx, env, case, resp=None):
     """case: iface, size, ext, chunk, range (str|None), if_range (kind), method; resp = an already used response object (reuse)"""
     iface, size, chunk, method = case["iface"], case["size"], case["chunk"], case["method"]
     path, data = env.file(size, case.get("ext", ".bin"))
+    if case.get("via_symlink"):
+        # the path handed to the response names a symbolic link to the file (a release directory switched by a link): the file is what is served
+        link = path + ".link" + case.get("ext", ".bin")
+        if not os.path.islink(link):
+            os.symlink(os.path.basename(path), link)
+        path = link
     ext = case.get("ext", ".bin")
     ctype = CTYPES.get(ext) or ("application/octet-stream" if ext == ".bin" else "text/plain")
     sub = bool(case.get("subclass"))
@@ -337,6 +343,8 @@ def gen_cases(ctx, rng):
                                 c["via"] = "view"  # returned by a request_response view (also with the zero-copy extension, also for HEAD)
                             elif r < 0.16 and iface == "wsgi":
                                 c["via"] = "file_wrapper"
+                            if size >= 16 and (size + chunk + len(rh or "")) % 9 == 0:
+                                c["via_symlink"] = True
                             if kind is not None and rng.random() < 0.3:
                                 c["subclass"] = True  # a subclass with its own generate_etag(): "current ETag" is what IT advertises
                             yield c
